@@ -5,5 +5,9 @@ EXTENDS GitAiCore
 EmitAfter == {"Commit"}
 Emit == (hist # <<>> /\ hist[Len(hist)].a \in EmitAfter) => PrintT(<<"REPLAY", ToJson(hist)>>)
 
-AllProps == \A p \in PropertyNames : Holds(p)
+G_C01_Exact      == Clean(C01_Exact)
+G_C01_OnlyAdded  == Clean(C01_OnlyAdded)
+G_C03_Notes      == Clean(C03_Notes)
+G_C03_Blame      == Clean(C03_Blame)
+G_C05_WellFormed == Clean(C05_WellFormed)
 ==============================================================================
